@@ -1,4 +1,5 @@
 """C14 — message summaries partition the message list and count it faithfully (necessary conditions)."""
+import os
 from nx import sym, loops, listalg
 from nx.spec import *
 from rules import common
@@ -100,6 +101,10 @@ def run(chk, tier):
         g_some = any(len(c) == 3 and c[0] == ("discr", G) and c[2] == ((1, 1),) for c in c2)
         g_none = any(len(c) == 3 and c[0] == ("discr", G) and not any(lo <= 1 <= hi for lo, hi in c[2]) for c in c2)
         groups = listalg.seq(v["groups"])
+        if groups is not None and (g_some or g_none):
+            # `extend(groups, G.take())`: an Option contributes its payload when present and nothing when absent
+            groups = [(("elem", gp) if g_some else None) if x == ("atom", G) else x for x in groups]
+            groups = [x for x in groups if x is not None]
         base = [("atom", fld(S, "message_groups"))]
         pushed_old = groups == base + [("elem", gp)]
         unchanged = groups == base
@@ -190,19 +195,25 @@ def continued_ok(ev, t, S, elev, t31, conds, groups_now):
     if t == FALSE:
         return any(len(c) == 2 and c[1] is True and c[0][0] == "call" and c[0][1].endswith("::is_empty") for c in conds)
     a = t
-    if not (a[0] == "call" and a[1].endswith("Iterator::any")):
+    if not (a[0] == "call" and a[1].endswith("::any") and "Iterator" in a[1]):
         return False
     src, clo = a[2]
     # the iterated collection is exactly the groups as they stand after this iteration's flush (order of iteration is irrelevant to `any`)
     inner = src
     while inner[0] in ("iop", "iter"):
         inner = inner[2] if inner[0] == "iop" else inner[1]
-    if inner != groups_now:
+    if inner != groups_now and not (listalg.seq(inner) is not None and listalg.seq(inner) == listalg.seq(groups_now)):
+        if os.environ.get("NX_DEBUG"):
+            print("DEBUG continued_ok inner:", show(inner)[:300], "| now:", show(groups_now)[:300])
         return False
     try:
         body = ev.apply_closure(clo, [sym.ELEM], 0)
-    except sym.Undecided:
+    except sym.Undecided as e:
+        if os.environ.get("NX_DEBUG"):
+            print("DEBUG continued_ok undecided:", e, show(clo)[:300])
         return False
+    if os.environ.get("NX_DEBUG"):
+        print("DEBUG continued_ok body:", show(sym.prune(body))[:600])
     dty = body[2] if body[0] == "cases" else "isize"
     want = mk_and(mk_in(("discr", fld(sym.ELEM, "message_type")), dty, ((t31, t31),)), sym._m_eq(None, [some(elev), fld(sym.ELEM, "elevation_number")], None, 0))
     return sym.prune(body) == sym.prune(want) or canon_calls(sym.prune(body)) == canon_calls(sym.prune(want))
@@ -255,6 +266,9 @@ def data_types(chk, prog):
     w = fn.where()
     found = {}
     counter = None
+    def touches_map(p):
+        return any("HashMap" in callee_of(tt) for _, tt in prog.fn(p).calls())
+    clos = [p for p in clos if touches_map(p)]       # the counting closure(s); other local closures (predicates) are not counting calls
     for b, t in fn.calls():
         name = callee_of(t)
         if name not in clos or len(t["args"]) != 2:
@@ -314,7 +328,18 @@ def data_types(chk, prog):
             gets = [e for e in ev.effects if e[0].endswith("HashMap::<K, V, S, A>::get")]
             ins = [e for e in ev.effects if e[0].endswith("HashMap::<K, V, S, A>::insert")]
             okc = len(gets) == 1 and len(ins) == 1 and gets[0][1][1] == P("key")
-            if okc:
+            ents = [e for e in ev.effects if e[0].endswith("HashMap::<K, V, S, A>::entry")]
+            if not gets and not ins and len(ents) == 1:
+                # entry API: *map.entry(key).or_insert(0) += 1 — the slot is created with 0 when missing and incremented in place
+                cf = prog.fn(counter)
+                slots = [tt["dest"]["l"] for _, tt in cf.calls() if "Entry" in callee_of(tt) and callee_of(tt).endswith("::or_insert") and
+                         tt["args"][1].get("k") == "const" and tt["args"][1].get("int") == 0]
+                incs = [st for _, _, st in cf.stmts() if st["s"] == "assign" and st.get("rv") == "bin" and st["op"].startswith("Add") and
+                        st["a"].get("k") in ("copy", "move") and st["a"]["pl"]["p"] == ["*"] and st["a"]["pl"]["l"] in slots and
+                        st["b"].get("k") == "const" and st["b"].get("int") == 1]
+                stores = [st for _, _, st in cf.stmts() if st["s"] == "assign" and st["dst"]["p"] == ["*"] and st["dst"]["l"] in slots]
+                okc = len(slots) == 1 and len(incs) == 1 and len(stores) == 1 and P("key") in sym.atoms(ents[0][1][1])
+            elif okc:
                 k2, v2 = ins[0][1][1], ins[0][1][2]
                 is_add = (v2[0] == "bin" and v2[1] == "Add" and (sym.is_c(v2[2]) and v2[2][1] == 1 or sym.is_c(v2[3]) and v2[3][1] == 1)) or \
                     (v2[0] == "call" and v2[1].endswith("::add") and sym.is_c(v2[2][1]) and v2[2][1][1] == 1 and gets[0][0] in repr(v2[2][0]))
